@@ -21,8 +21,10 @@ CHECKS = {
     "C09": ("c09", "model_checking"),
     "C10": ("c10", "model_checking"),
     "C11": ("c11", "model_checking"),
+    "C12": ("c12", "model_checking"),
     "C14": ("c14", "model_checking"),
     "C15": ("c15", "model_checking"),
+    "C16": ("c16", "model_checking"),
     "C18": ("c18", "model_checking"),
     "C19": ("c19", "model_checking"),
     "C20": ("c20", "model_checking"),
